@@ -24,4 +24,22 @@ For each change deliver, under {wt}/out/<a|b|c>/:
   * `meta.json` with keys: "property" ("{pid}"), "summary" (what the change does), "needs" (what specific input / sequence / interleaving is needed for the violation to manifest), "why_tests_pass" (why the existing suite does not notice), "commands" (what you ran to confirm).
 When finished, leave the worktree source UNMODIFIED (`git checkout -- .` and remove your new test files from tests/ - keep copies only under out/), and reply with a short summary of the three changes.
 """
+
+if rnd == "3":
+    mechs = p.get("anchors", {}).get("mechanism", [])[:6]
+    names = "\n".join("  (%s) %s  [%s]" % (chr(ord('a') + i), m.get("name", ""), m.get("where", "")) for i, m in enumerate(mechs))
+    letters = "|".join(chr(ord('a') + i) for i in range(len(mechs)))
+    head, tail = text.split("Your task: play a careless or unlucky developer.", 1)
+    text = head + f"""Your task: play a careless or unlucky developer. The property text above lists, under anchors.mechanism, the code mechanisms it lives in:
+
+{names}
+
+Produce ONE source change PER MECHANISM ({len(mechs)} separate patches, each applying on its own to the unmodified worktree, each located in the code of its mechanism; line numbers in the list may have drifted - find the named functions) that BREAKS this property while the crate still COMPILES and the EXISTING test suite still PASSES (`cargo test --offline` with default features, and with `--features "websocket value-stream"`, must show the same passing tests as before your change; run them before and after). If for some mechanism you cannot find such a change after a real attempt, say so and skip it. Prefer realistic bugs a reviewer could miss: an off-by-one at a boundary, a wrong comparison direction, a dropped step in a multi-step sequence, something not undone on an error path, a refactoring that is right for the common case and wrong for a rare one, two sites that must agree made to differ. IMPORTANT: each change must need something SPECIFIC to manifest - a particular boundary value, a particular multi-step sequence of operations, an unusual input, a particular interleaving or fault at a particular point - NOT something any ordinary use of the library exposes at once, and not something only reachable with >1 GiB of data or > 30 s of waiting. Avoid the most obvious single-token mutations of the central comparison if a subtler change in the same mechanism exists. The change must be in the library source (src/), not in tests, and must not be guarded by cfg(test) or feature tricks.
+
+For each change deliver, under {wt}/out/<{letters}>/:
+  * `patch.diff` - `git diff` of the change against the unmodified worktree (only src/ changes);
+  * a DEMONSTRATION `demo.rs`: a new integration test file (run as `tests/seeded_demo.rs`) that FAILS with the change applied and PASSES without it, deterministically (run each 3 times); it may use only the crate's public API plus the crate's existing dev-dependencies;
+  * `meta.json` with keys: "property" ("{pid}"), "mechanism" (the name from the list), "summary" (what the change does), "needs" (what specific input / sequence / interleaving is needed for the violation to manifest), "why_tests_pass" (why the existing suite does not notice), "commands" (what you ran to confirm).
+When finished, leave the worktree source UNMODIFIED (`git checkout -- .` and remove your new test files from tests/ - keep copies only under out/), and reply with a short summary of the changes.
+"""
 print(text)
